@@ -188,6 +188,13 @@ class AtomExtractor:
         fn = env.fn
         if f.kind == "cmp":
             l, r, op = f.left, f.right, f.op
+            # constant on the left (0 <= x, chained 0 <= x <= MAX): the mirrored comparison with the request value on the left
+            if op in ("<", "<=", ">", ">=", "==", "!=") and env.path_of(l) is None and env.path_of(r) is not None \
+                    and not (isinstance(l, ast.Call) and call_name(l) in ("len", "type")):
+                okl, kl = self._lfold(l, fn, env.cls)
+                if okl and isinstance(kl, (int, str)) and not isinstance(kl, bool):
+                    l, r = r, l
+                    op = {"<": ">", "<=": ">=", ">": "<", ">=": "<=", "==": "==", "!=": "!="}[op]
             # K in X / K not in X
             if op in ("in", "not in"):
                 ok, k = self._lfold(l, fn, env.cls)
@@ -356,6 +363,135 @@ class AtomExtractor:
         """[(code int, frozenset(Atom), return node, undecided [Fact])] for every
         `return` of validator fn evaluated in class pc.  `partition` maps
         parameter names to constants (what / mandatory)."""
+        try:
+            return self._validator_exits_dom(fn, pc, roots, partition, depth)
+        except AnalysisError as e1:
+            # shapes the dominance-based summary does not model (a result variable threaded through several sub-validators, merged
+            # conditions): enumerate the validator's paths instead
+            try:
+                return self._validator_exits_paths(fn, pc, roots, partition, depth)
+            except AnalysisError as e2:
+                raise AnalysisError(f"{e1}; path enumeration: {e2}")
+
+    def _validator_exits_paths(self, fn, pc, roots=None, partition=None, depth=0):
+        """The same summary from the decision walk of the whole validator: one exit per path to a `return`, with the path's branch
+        conditions (locals substituted) as atoms, `x >= OK` / `x < OK` on the result of a sub-validator call as that call's accepting /
+        rejecting exits, and the returned value followed through the store."""
+        from .decide import Walker, cmp_parts
+        import itertools
+        P, A = self.P, self.A
+        partition = partition or {}
+        if roots is None:
+            ps = fn.params
+            roots = {ps[1]: ()} if len(ps) > 1 else {}
+        env = PathEnv(A, fn, roots, pc)
+        g = A.cfg(fn, pc)
+        out = []
+
+        def sub_call(e, lf):
+            """the sub-validator call a result name / expression stands for, or None"""
+            for _ in range(4):
+                if isinstance(e, ast.Name) and e.id in lf.bind:
+                    e = lf.bind[e.id]
+                elif isinstance(e, ast.Name) and e.id in lf.env:
+                    e = lf.env[e.id]
+                else:
+                    break
+            if isinstance(e, ast.Call) and any(x.fn is not None and x.fn.name.startswith("_validate") for x in A.resolve_call(e, fn, pc)):
+                return e
+            return None
+        for lf in Walker(A, fn, pc, lambda e: None, max_leaves=400, max_steps=20000).walk(g.entry):
+            if lf.kind != "return":
+                if lf.kind in ("raise", "dead"):
+                    continue
+                raise AnalysisError(f"{fn.qualname}: path ends in `{lf.kind}`")
+            atoms, undec, feasible = set(), [], True
+            constraints = {}        # id(call) -> (call, True if known non-negative / False if known negative)
+            for k, truth in lf.pc.items():
+                if not k.startswith("?"):
+                    continue
+                try:
+                    ce = ast.parse(k[1:], mode="eval").body
+                except SyntaxError:
+                    raise AnalysisError(f"{fn.qualname}: condition `{k[1:][:60]}` not parsable")
+                cp = cmp_parts(ce)
+                if cp is not None and norm(cp[2]).endswith("ERROR_CODE_OK") and cp[1] in ("<", ">=", ">", "<=", "==", "!="):
+                    c_ = sub_call(cp[0], lf)
+                    if c_ is not None and cp[1] in ("<", ">="):
+                        nonneg = (cp[1] == ">=") == truth
+                        if constraints.get(norm(c_), (None, nonneg))[1] != nonneg:
+                            feasible = False        # `r >= OK` and `r < OK` of the same result on one path
+                        constraints[norm(c_)] = (c_, nonneg)
+                        continue
+                for f in make_facts("T" if truth else "F", ce, fn, None):
+                    a = self.atoms_of_fact(f, env)
+                    if a is None:
+                        pa = self._partition_eval(f, partition, fn, pc)
+                        if pa is False:
+                            feasible = False
+                        elif pa is None:
+                            if not (f.kind == "call" and not f.pol):
+                                undec.append(f)
+                        continue
+                    for at in a:
+                        if at.kind == "param":
+                            pv = partition.get(at.path[0])
+                            if pv is None:
+                                undec.append(f)
+                            elif (pv in at.args[1]) != (at.args[0] == "in"):
+                                feasible = False
+                        else:
+                            atoms.add(at)
+            if not feasible:
+                continue
+            # completed BIP32Path constructions on the path
+            for kind, st, v in lf.effects:
+                for c in ([x for x in ast.walk(v) if isinstance(x, ast.Call)] if isinstance(v, ast.AST) else []):
+                    cs = [x for x in A.resolve_call(c, fn, pc) if x.fn is not None]
+                    if len(cs) == 1 and cs[0].how == "ctor" and cs[0].self_cls is not None and cs[0].self_cls.name == "BIP32Path" and c.args:
+                        p = env.path_of(c.args[0])
+                        if p is not None:
+                            atoms.add(Atom("bip32", p))
+            # the value returned
+            rv = lf.node.ast.value
+            rv = lf.deep(rv, stop=tuple(n for n in lf.bind)) if rv is not None else None
+            vals = None
+            rc = sub_call(rv, lf) if rv is not None else None
+            if rc is not None:
+                cons = constraints.pop(norm(rc), (rc, None))[1]
+                allv = self._call_values(rc, fn, pc, env, depth, negative_only=False)
+                vals = [(c_, a_) for c_, a_ in allv if cons is None or (c_ >= 0) == cons]
+            else:
+                ok, cst = try_fold(P, rv, fn, pc) if rv is not None else (False, None)
+                if not (ok and isinstance(cst, int)):
+                    raise AnalysisError(f"{fn.qualname}: return value `{norm(rv) if rv is not None else None}` not understood on a path")
+                vals = [(cst, frozenset())]
+            # sub-validators known to have accepted / rejected on this path
+            sub_sets = []
+            for key, (c_, nonneg) in constraints.items():
+                allv = self._call_values(c_, fn, pc, env, depth, negative_only=False)
+                sel = [a_ for code_, a_ in allv if (code_ >= 0) == nonneg]
+                if not sel:
+                    feasible = False
+                    break
+                if nonneg:
+                    sub_sets.append(sel)
+            if not feasible:
+                continue
+            for code, extra in vals:
+                if code >= 0 and sub_sets:
+                    for combo in itertools.product(*sub_sets):
+                        acc = set(atoms | extra)
+                        for c in combo:
+                            acc |= set(c)
+                        out.append((code, frozenset(acc), lf.node.ast, undec))
+                else:
+                    out.append((code, frozenset(atoms | extra), lf.node.ast, undec))
+        if not out:
+            raise AnalysisError(f"{fn.qualname}: no exit understood")
+        return out
+
+    def _validator_exits_dom(self, fn, pc, roots=None, partition=None, depth=0):
         P, A = self.P, self.A
         partition = partition or {}
         if isinstance(fn.node, ast.Lambda):
